@@ -29,7 +29,7 @@ func (p EvenPort) String() string {
 
 const (
 	evenPortSize = 1
-	firstBitSet  = (1 << 8) - 1 // 0b100000000
+	firstBitSet  = 1 << 7 // 0b10000000: R is the most significant bit, the other seven are RFFU
 )
 
 // AddTo adds EVEN-PORT to message.
